@@ -2,15 +2,15 @@
 
 package mailbox
 
-// vCipherPair: a sending and a receiving cipherState in lock-step: same
-// symbolic key and salt, same symbolic nonce in [0, 999].
+// vCipherPair: the sending and the receiving cipherState of one direction,
+// as the real split() produced them on the two parties (symbolic chaining
+// key), moved to the same symbolic nonce in [0, 999].
 func vCipherPair() (s, r *cipherState) {
-	var key, salt [32]byte
-	copy(key[:], vBytes("key", 32))
-	copy(salt[:], vBytes("salt", 32))
-	s, r = &cipherState{}, &cipherState{}
-	s.InitializeKeyWithSalt(salt, key)
-	r.InitializeKeyWithSalt(salt, key)
+	ini, rsp := vMachines()
+	s, r = &ini.sendCipher, &rsp.recvCipher
+	if vBool("responder_to_initiator") {
+		s, r = &rsp.sendCipher, &ini.recvCipher
+	}
 	n := vU64("nonce")
 	vAssume(n < keyRotationInterval)
 	s.nonce, r.nonce = n, n
@@ -150,4 +150,42 @@ func VH_C08_ManyRecords() {
 	vReach("many")
 	vAssert(ini.sendCipher.nonce == uint64(2*n)%keyRotationInterval, "nonce is not 2*records mod 1000")
 	vAssert(ini.sendCipher.nonce == rsp.recvCipher.nonce, "nonces diverged after many records")
+}
+
+// VH_C08_Directions: both directions of one session at symbolic positions of
+// their key epochs (each possibly one step before its rotation), one
+// encryption and decryption per direction in any of the six interleavings
+// (records may cross in flight), then one more round: everything decrypts to
+// what was written. Purely behavioural: only Encrypt/Decrypt and the nonce
+// counters are used.
+func VH_C08_Directions() {
+	ini, rsp := vMachines()
+	x, y := vU64("nonce_i2r"), vU64("nonce_r2i")
+	vAssume(x < keyRotationInterval && y < keyRotationInterval)
+	ini.sendCipher.nonce, rsp.recvCipher.nonce = x, x
+	rsp.sendCipher.nonce, ini.recvCipher.nonce = y, y
+	p, q := vBytes("p", 1), vBytes("q", 1)
+	var ctA, ctC []byte
+	opA := func() { ctA = ini.sendCipher.Encrypt(nil, nil, p) }
+	opB := func() {
+		pt, err := rsp.recvCipher.Decrypt(nil, nil, ctA)
+		vAssert(err == nil && vBytesEq(pt, p), "initiator->responder record does not decrypt when the directions interleave")
+	}
+	opC := func() { ctC = rsp.sendCipher.Encrypt(nil, nil, q) }
+	opD := func() {
+		pt, err := ini.recvCipher.Decrypt(nil, nil, ctC)
+		vAssert(err == nil && vBytesEq(pt, q), "responder->initiator record does not decrypt when the directions interleave")
+	}
+	orders := [6][4]func(){
+		{opA, opB, opC, opD}, {opA, opC, opB, opD}, {opA, opC, opD, opB},
+		{opC, opD, opA, opB}, {opC, opA, opD, opB}, {opC, opA, opB, opD},
+	}
+	for round := 0; round < 2; round++ {
+		o := orders[vIntRange("order", 0, 5)]
+		for _, op := range o {
+			op()
+		}
+	}
+	vReach("directions")
+	vAssert(ini.sendCipher.nonce == rsp.recvCipher.nonce && rsp.sendCipher.nonce == ini.recvCipher.nonce, "nonces of a direction diverged")
 }
